@@ -16,21 +16,21 @@ Proof.
   destruct IH as [-> ->]. auto.
 Qed.
 
-Lemma finish_send_next : forall st k n o, st_next (finish_send st k n o) = st_next st.
-Proof. intros. unfold finish_send. destruct (exchange (st_pool st) n o). reflexivity. Qed.
+Lemma finish_send_next : forall c st k n o, st_next (finish_send c st k n o) = st_next st.
+Proof. intros. unfold finish_send. destruct (exchange c (st_pool st) n o). reflexivity. Qed.
 
-Lemma finish_send_now : forall st k n o, st_now (finish_send st k n o) = st_now st.
-Proof. intros. unfold finish_send. destruct (exchange (st_pool st) n o). reflexivity. Qed.
+Lemma finish_send_now : forall c st k n o, st_now (finish_send c st k n o) = st_now st.
+Proof. intros. unfold finish_send. destruct (exchange c (st_pool st) n o). reflexivity. Qed.
 
 Lemma Inv_with_pool : forall c st p, Inv c st -> Inv c (with_pool st p).
 Proof.
   intros c st p [ND [F N]]. split; [exact ND|]. split; [exact F|exact N].
 Qed.
 
-Lemma Inv_finish_send : forall c st k n o, Inv c st -> Inv c (finish_send st k n o).
+Lemma Inv_finish_send : forall c st k n o, Inv c st -> Inv c (finish_send c st k n o).
 Proof.
   intros c st k n o [ND [F N]]. unfold finish_send.
-  destruct (exchange (st_pool st) n o) as [p3 ok].
+  destruct (exchange c (st_pool st) n o) as [p3 ok].
   destruct (tfind k (st_table st)) as [s'|] eqn:T.
   - destruct (tfind_Some _ _ _ T) as [Hs' Hk].
     repeat split; simpl; try assumption.
@@ -41,10 +41,10 @@ Proof.
   - split; [exact ND|]. split; [exact F|exact N].
 Qed.
 
-Lemma unknown_finish_send : forall st k n o j, ~ known st (Id j) -> ~ known (finish_send st k n o) (Id j).
+Lemma unknown_finish_send : forall c st k n o j, ~ known st (Id j) -> ~ known (finish_send c st k n o) (Id j).
 Proof.
-  intros st k n o j NK [k' [s [E [Hs [Hid U]]]]]. inversion E; subst k'. clear E. apply NK.
-  unfold finish_send in Hs. destruct (exchange (st_pool st) n o) as [p3 ok]. simpl in Hs.
+  intros c st k n o j NK [k' [s [E [Hs [Hid U]]]]]. inversion E; subst k'. clear E. apply NK.
+  unfold finish_send in Hs. destruct (exchange c (st_pool st) n o) as [p3 ok]. simpl in Hs.
   destruct (tfind k (st_table st)) as [s'|] eqn:T; [|exists j, s; auto].
   destruct (tfind_Some _ _ _ T) as [Hs' Hk].
   apply tset_In in Hs as [->|Hs]; [|exists j, s; auto].
@@ -64,11 +64,11 @@ Section FanPreserves.
   Variable P : state -> Prop.
   Hypothesis P_pool : forall st p, P st -> P (with_pool st p).
   Hypothesis P_run : forall st ops, P st -> P (fst (run c st ops)).
-  Hypothesis P_finish : forall st k n o, P st -> P (finish_send st k n o).
+  Hypothesis P_finish : forall st k n o, P st -> P (finish_send c st k n o).
 
   Lemma hand_preserves : forall st n k ops o st2 obs orphan,
     P st -> run_watch c n (with_pool st (fst (pool_get (st_pool st) n k))) ops = (st2, obs, orphan) ->
-    P (if orphan then st2 else finish_send st2 k n o).
+    P (if orphan then st2 else finish_send c st2 k n o).
   Proof.
     intros st n k ops o st2 obs orphan H RW.
     pose proof (run_watch_run c n ops (with_pool st (fst (pool_get (st_pool st) n k)))) as [E _].
@@ -132,7 +132,7 @@ Proof.
   destruct (tfind k (st_table st)) as [s|].
   - destruct (deliverable c s (st_now st)).
     + destruct (run_watch c (s_notify s) _ _) as [[st2 obs] orphan].
-      specialize (IH (tl inter) (if orphan then st2 else finish_send st2 k (s_notify s) (outcome_at outs (s_notify s)))
+      specialize (IH (tl inter) (if orphan then st2 else finish_send c st2 k (s_notify s) (outcome_at outs (s_notify s)))
                      (d ++ filter (fun o => negb (inflight c o)) (hd [] inter))).
       destruct (fan c a outs r (tl inter) _ _) as [[st4 vs] d']. simpl in *. now rewrite IH.
     + specialize (IH inter st d). destruct (fan c a outs r inter st d) as [[st4 vs] d']. simpl in *. now rewrite IH.
@@ -174,7 +174,7 @@ Proof.
   - destruct (deliverable c s (st_now st)).
     + destruct (run_watch c (s_notify s) (with_pool st (fst (pool_get (st_pool st) (s_notify s) k)))
                  (filter (inflight c) (hd [] inter))) as [[st2 obs] orphan] eqn:RW.
-      assert (Inv c (if orphan then st2 else finish_send st2 k (s_notify s) (outcome_at outs (s_notify s)))) as I3.
+      assert (Inv c (if orphan then st2 else finish_send c st2 k (s_notify s) (outcome_at outs (s_notify s)))) as I3.
       { apply (hand_preserves c (Inv c)) with (st := st) (ops := filter (inflight c) (hd [] inter)) (obs := obs);
           [intros; now apply Inv_with_pool|intros; now apply Inv_run|intros; now apply Inv_finish_send|exact I|exact RW]. }
       specialize (IH (tl inter) _ (d ++ filter (fun o => negb (inflight c o)) (hd [] inter)) I3).
@@ -253,7 +253,7 @@ Proof.
     + destruct (run_watch c (s_notify s) (with_pool st (fst (pool_get (st_pool st) (s_notify s) k)))
                  (filter (inflight c) (hd [] inter))) as [[st2 obs] orphan] eqn:RW.
       set (st1 := with_pool st (fst (pool_get (st_pool st) (s_notify s) k))) in *.
-      set (st3 := if orphan then st2 else finish_send st2 k (s_notify s) (outcome_at outs (s_notify s))) in *.
+      set (st3 := if orphan then st2 else finish_send c st2 k (s_notify s) (outcome_at outs (s_notify s))) in *.
       assert (Inv c st1) as I1 by (now apply Inv_with_pool).
       pose proof (run_watch_run c (s_notify s) (filter (inflight c) (hd [] inter)) st1) as [E2 _].
       rewrite RW in E2. simpl in E2.
@@ -401,12 +401,10 @@ Proof.
   destruct (m =? n) eqn:E; simpl; rewrite E; [reflexivity|exact IH].
 Qed.
 
-Lemma post_split : forall p n u o, post p n u o = exchange (fst (pool_get p n u)) n o.
+Lemma post_split : forall c p n u o, post c p n u o = exchange c (fst (pool_get p n u)) n o.
 Proof.
-  intros p n u o. unfold post, exchange, pool_get.
-  destruct (pfind n p) as [[us d]|]; simpl; rewrite pfind_pset_same.
-  - destruct d; [reflexivity|]. destruct o; reflexivity.
-  - destruct o; reflexivity.
+  intros c p n u o. unfold post, exchange, pool_get.
+  destruct (pfind n p) as [[us d]|]; simpl; rewrite pfind_pset_same; reflexivity.
 Qed.
 
 Lemma tset_mid : forall s' s done r, NoDup (map s_id (done ++ s :: r)) -> s_id s' = s_id s ->
@@ -439,7 +437,7 @@ Proof.
       destruct (deliverable c s now) eqn:D; simpl.
       * rewrite post_split.
         unfold finish_send. simpl.
-        destruct (exchange (fst (pool_get p (s_notify s) (s_id s))) (s_notify s) (outcome_at outs (s_notify s)))
+        destruct (exchange c (fst (pool_get p (s_notify s) (s_id s))) (s_notify s) (outcome_at outs (s_notify s)))
           as [p1 ok] eqn:X. simpl.
         rewrite (tfind_mid s done r ND).
         rewrite (tset_mid _ s done r ND) by reflexivity.
